@@ -1,7 +1,7 @@
 (* C20/Property.v — property C20 (link URIs select the right driver and parse to the right radio settings).
    Theorems only; each is closed by `exact <lemma of Proofs_*.v>` and followed by Print Assumptions.
-   The model (C20/Model.v) describes the code with fixes/F20.patch applied. *)
-From CF Require Import Common.Bytes C20.Model C20.Proofs_a C20.Proofs_b C20.Proofs_c C20.Proofs_d.
+   The model (C20/Model.v) describes the code with fixes/F20.patch and fixes/F20b.patch applied. *)
+From CF Require Import Common.Bytes C20.Model C20.Proofs_a C20.Proofs_b C20.Proofs_c C20.Proofs_d C20.Proofs_e.
 Open Scope Z_scope.
 
 (* Every well-formed radio URI parses to exactly what it names.  Dongle: a number below 10^9 or a serial
@@ -98,3 +98,11 @@ Theorem C20_malformed_radio_uri_refused : forall serials env es uri e,
   open_link serials env (classes es) uri = ONoLink [CbRequested; CbFailed].
 Proof. exact malformed_radio_uri_refused. Qed.
 Print Assumptions C20_malformed_radio_uri_refused.
+
+(* uri_helper.address_from_env (the library's second URI parser) returns, for every well-formed URI in CFLIB_URI,
+   the very address parse_uri returns (as an integer): also with omitted fields (default) and query options *)
+Theorem C20_env_address_consistent : forall serials d t l devid,
+  dongle_ok serials d devid -> tail_ok t -> lim_ok l ->
+  address_from_env (fmt_uri d t l) = EnvAddr (be_val (tail_address t)).
+Proof. exact address_from_env_fmt. Qed.
+Print Assumptions C20_env_address_consistent.
